@@ -78,20 +78,20 @@ fn c06_send_command_order_and_faults() {
     let r = di.send_command(cmd, &args[..n]);
     match r {
         Ok(()) => {
-            assert!(w.n.get() == n + 1 && w.writes.get() == 2 && w.dc_sets.get() == 2, "C06: one instruction write and one parameter write");
+            kani::assert(w.n.get() == n + 1 && w.writes.get() == 2 && w.dc_sets.get() == 2, "C06: one instruction write and one parameter write");
             let (b, d) = (w.bytes.get(), w.dcs.get());
-            assert!(b[0] == cmd && !d[0], "C06: instruction byte with DC low");
+            kani::assert(b[0] == cmd && !d[0], "C06: instruction byte with DC low");
             let i: usize = kani::any();
             kani::assume(i < n);
-            assert!(b[i + 1] == args[i] && d[i + 1], "C06: parameter bytes in order with DC high");
-            assert!(w.dc.get() == Some(true), "C06: DC left high");
-            assert!(w.clock.ops.get() <= k, "C12: failing operation swallowed");
+            kani::assert(b[i + 1] == args[i] && d[i + 1], "C06: parameter bytes in order with DC high");
+            kani::assert(w.dc.get() == Some(true), "C06: DC left high");
+            kani::assert(w.clock.ops.get() <= k, "C12: failing operation swallowed");
         }
         Err(e) => {
-            assert!(w.clock.ops.get() == k + 1, "C12: operation issued after the failing one");
+            kani::assert(w.clock.ops.get() == k + 1, "C12: operation issued after the failing one");
             match e {
-                SpiError::Dc(_) => assert!(k == 0 || k == 2, "C12: Dc error not caused by the data/command pin"),
-                SpiError::Spi(_) => assert!(k == 1 || k == 3, "C12: Spi error not caused by the SPI device"),
+                SpiError::Dc(_) => kani::assert(k == 0 || k == 2, "C12: Dc error not caused by the data/command pin"),
+                SpiError::Spi(_) => kani::assert(k == 1 || k == 3, "C12: Spi error not caused by the SPI device"),
             }
         }
     }
@@ -108,7 +108,7 @@ fn c06_repeat_zero_terminates() {
     let mut di = SpiInterface::new(WSpi(&w), WDc(&w), &mut buf);
     let px: [u8; 2] = kani::any();
     assert!(di.send_repeated_pixel(px, 0).is_ok());
-    assert!(w.n.get() == 0, "C06: bytes sent for a repeat count of zero");
+    kani::assert(w.n.get() == 0, "C06: bytes sent for a repeat count of zero");
 }
 
 /// bounded stand-in: buffer lengths 2..=5, N = 2, count <= 5: exact bytes, DC untouched, transaction bound
@@ -125,14 +125,14 @@ fn c06_repeated_pixel_bounded() {
     let count: u32 = kani::any();
     kani::assume(count >= 1 && count <= 5);
     assert!(di.send_repeated_pixel(px, count).is_ok());
-    assert!(w.n.get() == 2 * count as usize, "C06: byte count of a repeated pixel");
+    kani::assert(w.n.get() == 2 * count as usize, "C06: byte count of a repeated pixel");
     let b = w.bytes.get();
     let i: usize = kani::any();
     kani::assume(i < 2 * count as usize);
-    assert!(b[i] == px[i % 2], "C06: repeated pixel bytes");
-    assert!(w.dc_sets.get() == 0, "C06: DC touched while sending pixels");
+    kani::assert(b[i] == px[i % 2], "C06: repeated pixel bytes");
+    kani::assert(w.dc_sets.get() == 0, "C06: DC touched while sending pixels");
     let usable = (len / 2) * 2;
-    assert!(w.writes.get() as usize <= (2 * count as usize) / usable + 1, "C20: more bus transactions than floor(b/usable)+1");
+    kani::assert(w.writes.get() as usize <= (2 * count as usize) / usable + 1, "C20: more bus transactions than floor(b/usable)+1");
 }
 
 /// bounded stand-in: pixel stream of 0..=4 pixels, buffer lengths 2..=5
@@ -149,12 +149,12 @@ fn c06_send_pixels_bounded() {
     let n: usize = kani::any();
     kani::assume(n <= 4);
     assert!(di.send_pixels(px.into_iter().take(n)).is_ok());
-    assert!(w.n.get() == 2 * n, "C06: byte count of a pixel stream");
+    kani::assert(w.n.get() == 2 * n, "C06: byte count of a pixel stream");
     let b = w.bytes.get();
     let i: usize = kani::any();
     kani::assume(i < 2 * n);
-    assert!(b[i] == px[i / 2][i % 2], "C06: pixel bytes in order, nothing stale");
-    assert!(w.dc_sets.get() == 0, "C06: DC touched while sending pixels");
+    kani::assert(b[i] == px[i / 2][i % 2], "C06: pixel bytes in order, nothing stale");
+    kani::assert(w.dc_sets.get() == 0, "C06: DC touched while sending pixels");
     let usable = (len / 2) * 2;
-    assert!(w.writes.get() as usize <= (2 * n) / usable + 1, "C20: more bus transactions than floor(b/usable)+1");
+    kani::assert(w.writes.get() as usize <= (2 * n) / usable + 1, "C20: more bus transactions than floor(b/usable)+1");
 }
